@@ -138,6 +138,13 @@ def headAct : ActName → Bool
 
 def hasAct (a : ActName) (cs : List Call) : Bool := cs.any fun c => c.act == a
 
+/-- actions that touch neither the tag being named nor the text type (allowed in the `eof` / sequence
+arms of a `TagHead` state) -/
+def quietAct : ActName → Bool
+  | .createStartTag | .createEndTag | .updateTagNameHash | .finishTagName | .emitTag
+  | .enterCdata | .leaveCdata => false
+  | _ => true
+
 def Pat.isSpecial' : Pat → Bool
   | .chSeq .. => true
   | .eoc => true
@@ -186,7 +193,7 @@ def armPair (S : SLabels) (L : Labels) (ph : Phase) (a : Arm) (a' : Option Arm) 
 
 def headPairOk (t : Table) (S : SLabels) (L : Labels) (s : StateId) (sd : StateDef) (ph : Phase) : Bool :=
   sd.enter.isEmpty &&
-  sd.arms.all (fun a => !a.pat.isSpecial' || a.body.seqs.all (fun q => !hasAct .finishTagName q.calls)) &&
+  sd.arms.all (fun a => !a.pat.isSpecial' || a.body.seqs.all (fun q => q.calls.all (fun c => quietAct c.act))) &&
   (match t.state? (S.at s) with
    | none => false
    | some sd' =>
